@@ -53,9 +53,62 @@ def twin_fs_spec(r, o):
     return {"entries": entries, "roots": ["r0", "r1"], "twin_fs": True}, meta
 
 
+MiB = 1 << 20
+SLOW_HASHES = ("sha256", "sha512", "sha3-256", "sha3-512")
+
+
+def sparse_spec(r, o, tier="thorough"):
+    """Files far beyond the sizes random data can be generated for: 64 MiB (where the suffix stage starts on a rotational
+    or unknown device) up to just past 2^32 bytes, as holes with a few marked bytes. Every class has same-length decoys
+    that differ in one byte at an offset next to a stage boundary or a power of two."""
+    o.update(transform=None, fs="ext4", cache=None if o["cache"] == "warm" else o["cache"])
+    huge = r.random() < 0.2
+    if huge and tier == "quick" and o["hash_fn"] in SLOW_HASHES:
+        o["hash_fn"] = r.choice(["metro", "xxhash", "blake3"])  # 3 x 2 GiB through sha3-512 take half a minute
+    if huge:
+        lens = [(1 << 31) + 3] if o["hash_fn"] in SLOW_HASHES else [r.choice([(1 << 32) + 5, (1 << 32) + 70000, (1 << 31) + 3])]
+    else:
+        lens = r.sample([64 * MiB - 1, 64 * MiB, 64 * MiB + 1, 64 * MiB + 16384, 64 * MiB + 16385, 80 * MiB, 100 * MiB + 123,
+                         16 * MiB, 9 * MiB + 1], r.randrange(1, 4))
+    entries = [{"t": "d", "p": "r0"}, {"t": "d", "p": "r0/s"}]
+    classes = []
+    mt = 0
+    k = 0
+    P = [4096, 16384] + [x for x in (o["max_prefix"], o["max_suffix"]) if x]
+    for ci, L in enumerate(lens):
+        base = sorted({r.choice([0, 5, 4095, 70000, L // 3, L - 1, L - 20000]) for _ in range(r.randrange(0, 3))})
+        base = [[off, r.randrange(1, 256)] for off in base if 0 <= off < L]
+        offs = {0, 1, L // 2, L - 1, L - 2, 65535, 65536, 65537, (1 << 31) - 1, 1 << 31, (1 << 32) - 1, 1 << 32, (1 << 32) + 1,
+                64 * MiB - 1, 64 * MiB}
+        for p_ in P:
+            offs.update((p_ - 1, p_, p_ + 1, L - p_ - 1, L - p_, L - p_ + 1))
+        offs = sorted(x for x in offs if 0 <= x < L and all(x != b[0] for b in base))
+
+        def add(marks):
+            nonlocal mt, k
+            mt += 1
+            k += 1
+            p = "r0/%sbig%d" % (r.choice(["", "s/"]), k)
+            entries.append({"t": "sp", "p": p, "len": L, "marks": marks, "mtime": mt})
+            return p
+        members = [add(base) for _ in range(r.randrange(1, 3 if huge else 4))]
+        classes.append({"fam": -2, "len": L, "flip": [], "members": members})
+        if r.random() < 0.3 and not huge:
+            p = "r0/hl%d" % k
+            entries.append({"t": "h", "p": p, "to": members[0]})
+            members.append(p)
+        for _ in range(1 if huge else r.randrange(1, 4)):
+            off = r.choice(offs)
+            dm = [add(sorted(base + [[off, r.randrange(1, 256)]])) for _ in range(r.randrange(1, 3))]
+            classes.append({"fam": -2, "len": L, "flip": [off], "members": dm, "decoy_of": ci})
+    return {"entries": entries, "roots": ["r0"], "cmd_roots": ["r0"], "sparse": True, "huge": huge}, {"classes": classes}
+
+
 def build_case(seed, pid, i, tier):
     r = common.rng_for(seed, pid, i)
     o = gm.sample_opts(r)
+    if r.random() < (0.03 if tier == "quick" else 0.04):
+        return (o,) + sparse_spec(r, o, tier)
     if r.random() < 0.06:
         # prefix and suffix both as long as whole files, on a device where the suffix stage runs from 64 KiB on
         o.update(kind="ssd", max_prefix=1 << 20, max_suffix=r.choice([1 << 20, 1 << 20, 65536]))
@@ -127,11 +180,13 @@ def _run(seed, pid, i, o, spec, meta, scratch):
     roots = spec.get("cmd_roots") or spec["roots"]
     roots_abs = [fse(os.path.join(troot, rt)) for rt in spec["roots"]]
     # second monitor of C01 (read coverage): uncached, non-transform runs execute under the interposer
-    trace = pid == "C01" and not o["cache"] and not o["transform"] and i % 2 == 0
+    trace = pid == "C01" and not o["cache"] and not o["transform"] and i % 2 == 0 and not spec.get("huge")
     log = os.path.join(d, "shim.log")
     extra_env = shimlog.shim_env(log, [troot]) if trace else None
     on_stdin = spec.get("roots_on_stdin") and not any("\n" in rt for rt in roots)
     gkw = {"extra_args": ["--stdin"], "stdin": b"".join(fse(rt) + b"\n" for rt in roots)} if on_stdin else {}
+    if spec.get("huge"):
+        gkw["timeout"] = 600
     res, argv = gm.run_group(o, [] if on_stdin else roots, troot, home, extra_env=extra_env, **gkw)
     if o["cache"] == "warm":
         res, argv = gm.run_group(o, [] if on_stdin else roots, troot, home, **gkw)
@@ -148,6 +203,9 @@ def _run(seed, pid, i, o, spec, meta, scratch):
         return [violation("%s:unparsable-report" % pid, "report not parsable: %s" % e, witness)]
 
     counts = {"groups_reported": len(rep.groups), "opts": [gm.opts_sig(o)], "runs_with_input_paths_on_stdin": 1 if on_stdin else 0}
+    if spec.get("sparse"):
+        counts["trees_of_sparse_files_of_9MiB_to_100MiB"] = 0 if spec["huge"] else 1
+        counts["trees_of_sparse_files_of_2GiB_to_4GiB_plus"] = 1 if spec["huge"] else 0
     if twin is not None:
         counts["trees_on_two_fresh_tmpfs_mounts" if twin else "twin_mounts_not_permitted"] = 1
         if twin:
@@ -234,25 +292,24 @@ def _oracle_c01(o, rep, meta, witness, counts, troot):
         files = g["files"]
         datas = []
         for p in files:
-            with open(p, "rb") as f:
-                b = f.read()
+            b = tree.content_token(p)
             if o["transform"]:
                 b = gm.TRANSFORMS[o["transform"]][1](b)
             datas.append(b)
         first = datas[0]
-        if len(first) != g["len"]:
-            witness["group"] = {"len": g["len"], "files": files, "actual_len": len(first)}
+        if tree.token_len(first) != g["len"]:
+            witness["group"] = {"len": g["len"], "files": files, "actual_len": tree.token_len(first)}
             return [violation("C01:%s:printed-length-wrong" % _sigparts(o),
                               "group prints length %d but %s has %d bytes (after transform: %s)"
-                              % (g["len"], fsd(files[0]), len(first), o["transform"]), witness, counts=counts)]
+                              % (g["len"], fsd(files[0]), tree.token_len(first), o["transform"]), witness, counts=counts)]
         for p, b in zip(files[1:], datas[1:]):
             pairs += 1
             if b != first:
                 witness["group"] = {"len": g["len"], "files": files}
-                off = next((k for k in range(min(len(b), len(first))) if b[k] != first[k]), min(len(b), len(first)))
+                off = tree.token_first_diff(first, b)
                 return [violation("C01:%s:members-differ" % _sigparts(o),
                                   "group of len %d lists %s and %s which differ at offset %d (lengths %d, %d)"
-                                  % (g["len"], fsd(files[0]), fsd(p), off, len(first), len(b)),
+                                  % (g["len"], fsd(files[0]), fsd(p), off, tree.token_len(first), tree.token_len(b)),
                                   witness, counts=counts)]
         inodes = {(os.stat(p).st_dev, os.stat(p).st_ino) for p in files}
         if len(inodes) >= 2 and (o["transform"] or g["len"] in decoy_lens):
